@@ -461,7 +461,8 @@ func getOffer(header []byte, isAccepted func(spec, offer string, specParams head
 						}
 						return false
 					}
-					lowerKey := utils.UnsafeString(utils.ToLowerBytes(key))
+					// the key is a view of the request's header: lower-case a copy, not the header itself
+					lowerKey := utils.ToLower(utils.UnsafeString(key))
 					params[lowerKey] = value
 					return true
 				})
